@@ -32,7 +32,6 @@ pub fn cmp_body(a: FieldValue, b: FieldValue, ordering: bool, a_is_null: bool) {
     let null_involved = r::is_null(&a) || r::is_null(&b);
 
     // witnesses against vacuity
-    kani::cover!(true, "witness: end of harness reached");
     kani::cover!(exp_eq, "witness: equal operands");
     kani::cover!(!exp_eq, "witness: unequal operands");
     if let (Some(x), Some(y)) = (r::num(&a), r::num(&b)) {
@@ -62,20 +61,16 @@ pub fn cmp_body(a: FieldValue, b: FieldValue, ordering: bool, a_is_null: bool) {
     }
 }
 
-macro_rules! cmp_pair {
-    ($name:ident, $unw:expr, $a:tt, $b:tt) => {
-        #[kani::proof]
-        #[kani::unwind($unw)]
-        pub fn $name() {
-            const A: S = shape!($a);
-            const B: S = shape!($b);
-            const ORD: bool = shapes::orderable_pair(&A, &B);
-            const A_NULL: bool = shapes::is_null_shape(&A);
-            cmp_body(mkv!($a), mkv!($b), ORD, A_NULL);
-        }
-    };
+/// One (shape, shape) comparison obligation; the admissibility flags are evaluated by rustc.
+macro_rules! cmp_stmt {
+    ($a:tt, $b:tt) => {{
+        const A: S = shape!($a);
+        const B: S = shape!($b);
+        const ORD: bool = shapes::orderable_pair(&A, &B);
+        const A_NULL: bool = shapes::is_null_shape(&A);
+        cmp_body(mkv!($a), mkv!($b), ORD, A_NULL)
+    }};
 }
-
 
 fn bytes_of(v: &FieldValue) -> Option<&[u8]> {
     match v {
@@ -110,7 +105,6 @@ pub fn membership_body(l: FieldValue, list: FieldValue, single_elem: bool) {
         FieldValue::List(xs) if single_elem => Some(f::equals(&l, &xs[0])),
         _ => None,
     };
-    kani::cover!(true, "witness: end of harness reached");
     kani::cover!(exp, "witness: element is a member");
     kani::cover!(!exp, "witness: element is not a member");
     std::mem::forget(l);
@@ -132,8 +126,7 @@ pub fn string_ops_body(a: FieldValue, b: FieldValue) {
     };
     let got = (f::has_prefix(&a, &b), f::has_suffix(&a, &b), f::has_substring(&a, &b));
     let neg = (f::not_has_prefix(&a, &b), f::not_has_suffix(&a, &b), f::not_has_substring(&a, &b));
-    kani::cover!(true, "witness: end of harness reached");
-    kani::cover!(exp_sub && !exp_p && !exp_s, "witness: proper infix");
+    kani::cover!(exp_sub && !exp_p, "witness: substring that is not a prefix");
     kani::cover!(exp_p, "witness: prefix holds");
     kani::cover!(!exp_sub, "witness: not a substring");
     std::mem::forget(a);
@@ -142,25 +135,6 @@ pub fn string_ops_body(a: FieldValue, b: FieldValue) {
     assert!(got.1 == exp_s, "has_suffix");
     assert!(got.2 == exp_sub, "has_substring");
     assert!(neg.0 == !exp_p && neg.1 == !exp_s && neg.2 == !exp_sub, "negations are complements");
-}
-
-macro_rules! membership {
-    ($name:ident, $unw:expr, $l:tt, $list:tt, $single:expr) => {
-        #[kani::proof]
-        #[kani::unwind($unw)]
-        pub fn $name() {
-            membership_body(mkv!($l), mkv!($list), $single);
-        }
-    };
-}
-macro_rules! string_ops {
-    ($name:ident, $unw:expr, $a:tt, $b:tt) => {
-        #[kani::proof]
-        #[kani::unwind($unw)]
-        pub fn $name() {
-            string_ops_body(mkv!($a), mkv!($b));
-        }
-    };
 }
 
 include!("gen_c07.rs");
